@@ -331,13 +331,20 @@ func (w *world) replayDoc(detail interface{}) interface{} {
 
 // the search for a failing history stops at the first property failure or model/impl disagreement of a world; a
 // decoder-level residue alone (reported once) does not stop it: a history in which it shows as a wrong balance is wanted
+// nStop: when the searches stop. A property failure stops them at once; a model-vs-code mismatch (hard tie failure) ends
+// its world, and up to three more worlds with a mismatch are run — a change of the code that breaks the property usually shows
+// first as a mismatch with the model, and the report wanted is the property failing on the real code (vlib drops the tie
+// failures when there is one).
 var nStop int
+
+const stopAfter = 4
+
 var residueReported bool
 
 func (w *world) propFail(key, what string, detail interface{}) {
 	if !w.failed {
 		r.PropFail(key, what, w.replayDoc(detail))
-		nStop++
+		nStop += stopAfter
 	}
 	w.failed = true
 }
@@ -379,6 +386,7 @@ func newWorldOpt(name string, seed uint64, min uint64, useMap uint32, compr bool
 	common.GocoinHomeDir = w.home + string(os.PathSeparator)
 	common.Testnet = true
 	common.CFG.Testnet = true
+	common.BlockChainSynchronized.Store(false)
 	common.BlockChain = k.Ch
 	common.Set(&common.WalletON, false)
 	wallet.FetchingBalanceTick = nil
@@ -617,9 +625,15 @@ func (w *world) checkAll(ctx string) {
 		return
 	}
 	cbSet := w.k.Ch.Unspent.CB.NotifyTxAdd != nil && w.k.Ch.Unspent.CB.NotifyTxDel != nil
+	onoffBad := ""
 	if mon != w.on || common.Get(&common.WalletON) != w.on || cbSet != w.on {
-		w.tieFail("onoff-state", fmt.Sprintf("on/off state: harness=%v model=%v WalletON=%v callbacks=%v", w.on, mon, common.Get(&common.WalletON), cbSet), nil)
-		return
+		// (reported below, after the property's predicate has been evaluated on this state: callbacks that disappeared
+		// while the wallet says it is on usually mean a stale index, and that is the report wanted)
+		onoffBad = fmt.Sprintf("on/off state: harness=%v model=%v WalletON=%v callbacks=%v", w.on, mon, common.Get(&common.WalletON), cbSet)
+		if !(w.on && mon && common.Get(&common.WalletON)) {
+			w.tieFail("onoff-state", onoffBad, nil)
+			return
+		}
 	}
 	// model UTXO = real UTXO (sanity of the step derivation)
 	mu := strings.Fields(w.ask("utxo"))
@@ -635,7 +649,10 @@ func (w *world) checkAll(ctx string) {
 	var propBad string
 	var propDetail interface{}
 	propKey := ""
-	if w.on && !w.quiet || w.on && w.step%10 == 0 || stop {
+	// (the predicate is evaluated on a sample of the states of the quiet phases — and ALWAYS when the real index differs
+	// from the model's: the report wanted is then the property failing on the real code, if it does)
+	dumpDiff := sameDump(real, model)
+	if w.on && !w.quiet || w.on && w.step%10 == 0 || stop || w.on && (dumpDiff != "" || onoffBad != "") {
 		if w.on {
 			// (a) the property on the real code
 			for _, a := range w.pool {
@@ -707,7 +724,11 @@ func (w *world) checkAll(ctx string) {
 		w.propFail(propKey, propBad, propDetail)
 		return
 	}
-	if d := sameDump(real, model); d != "" {
+	if onoffBad != "" {
+		w.tieFail("onoff-state", onoffBad, nil)
+		return
+	}
+	if d := dumpDiff; d != "" {
 		w.tieFail("index-dump", "real index differs from the model index after "+ctx+": "+d, nil)
 		return
 	}
@@ -1275,7 +1296,10 @@ func runRandom(name string, seed uint64, nops int, stopAt int) *world {
 	for i := 0; i < nops && !w.failed; i++ {
 		x := w.rng.Intn(100)
 		switch {
+		case x < 40:
+			w.opExtend()
 		case x < 43:
+			w.opNoise()
 			w.opExtend()
 		case x < 50:
 			w.opSync(false)
@@ -1629,6 +1653,12 @@ func runNamed(name string, seed uint64, stopAt int) {
 		var c int
 		fmt.Sscanf(name, "restart:min=%d,usemap=%d,compr=%d", &mn, &um, &c)
 		runRestart(name, seed, mn, um, c == 1, stopAt)
+	case strings.HasPrefix(name, "syncwrap:"):
+		var mn uint64
+		var um uint32
+		var c int
+		fmt.Sscanf(name, "syncwrap:min=%d,usemap=%d,compr=%d", &mn, &um, &c)
+		runSyncWrap(name, seed, mn, um, c == 1, stopAt)
 	case strings.HasPrefix(name, "sync:"):
 		var mn uint64
 		var um uint32
@@ -1749,7 +1779,7 @@ func main() {
 		corpus = nil
 	}
 	for i, c := range corpus {
-		if nStop > 0 {
+		if nStop >= stopAfter {
 			break
 		}
 		runNamed(fmt.Sprintf("corpus:min=%d,usemap=%d,type=%d", c.mn, c.um, c.idx), uint64(1000+i), -1)
@@ -1768,7 +1798,7 @@ func main() {
 		zero = nil
 	}
 	for i, c := range zero {
-		if nStop > 0 {
+		if nStop >= stopAfter {
 			break
 		}
 		runNamed(fmt.Sprintf("zero:usemap=%d,type=%d", c.um, c.idx), uint64(2000+i), -1)
@@ -1792,7 +1822,7 @@ func main() {
 		stat = nil
 	}
 	for i, c := range stat {
-		if nStop > 0 {
+		if nStop >= stopAfter {
 			break
 		}
 		runNamed(fmt.Sprintf("static:min=%d,usemap=%d,compr=%d", c.mn, c.um, c.c), r.Seed*1000+uint64(3000+i), -1)
@@ -1802,7 +1832,8 @@ func main() {
 	// restarts through the balances cache in the middle of the history (same / raised / lowered UseMapCnt)
 	extra := []string{"revisit:min=1000,usemap=3,compr=0", "revisit:min=0,usemap=5000,compr=1", "cfgrace:min=1000,usemap=4,compr=0", "cfgrace:min=100000,usemap=2,compr=1",
 		"restart:min=1000,usemap=3,compr=0", "restart:min=0,usemap=2,compr=1", "restart:min=546,usemap=4,compr=0",
-		"sync:min=1000,usemap=3,compr=0", "sync:min=0,usemap=5000,compr=1", "sync:min=546,usemap=2,compr=0"}
+		"sync:min=1000,usemap=3,compr=0", "sync:min=0,usemap=5000,compr=1", "sync:min=546,usemap=2,compr=0",
+		"syncwrap:min=1000,usemap=3,compr=0", "syncwrap:min=546,usemap=2,compr=1"}
 	if r.Thorough() {
 		for _, mn := range []uint64{0, 546, 100000} {
 			for _, um := range []uint32{0, 2, 5000} {
@@ -1820,13 +1851,13 @@ func main() {
 		extra = nil
 	}
 	for i, name := range extra {
-		if nStop > 0 {
+		if nStop >= stopAfter {
 			break
 		}
 		runNamed(name, r.Seed*1000+uint64(4000+i), -1)
 	}
 	n := r.N(10, 120)
-	for i := 0; i < n && nStop == 0; i++ {
+	for i := 0; i < n && nStop < stopAfter; i++ {
 		seed := r.Rng.U64()
 		nops := 40 + int(seed%40)
 		runNamed(fmt.Sprintf("random:ops=%d", nops), seed, -1)
